@@ -39,7 +39,7 @@ func macPw(secret, username string) string {
 
 func newLtcredSys(_ Meta, seed int64, init any) (Sys, error) {
 	st, _ := init.(map[string]any)
-	s := &ltcredSys{kind: st["kind"].(string), secret: fmt.Sprintf("secret-%d", seed), net: NewMemNet(), nport: 41000}
+	s := &ltcredSys{kind: st["kind"].(string), secret: fmt.Sprintf(" secret-%d\n", seed), net: NewMemNet(), nport: 41000} // (white space is part of a secret)
 	// the handler is built now; credentials are minted later (a handler that remembered its
 	// construction time instead of reading the clock would show)
 	switch s.kind {
@@ -129,6 +129,8 @@ func (s *ltcredSys) mutate(mut string) (string, string) {
 		u += ":x"
 	case "pwOtherSecret":
 		p = macPw(s.secret+"-other", u)
+	case "pwTrimmedSecret": // another secret: this one without its surrounding white space
+		p = macPw(strings.TrimSpace(s.secret), u)
 	case "pwOtherName":
 		p = macPw(s.secret, strconv.FormatInt(t+3600, 10)+rest)
 	case "pwFlip":
